@@ -484,8 +484,15 @@ pub fn build_arg(s: &ArgSpec) -> Arg {
     for (v, id) in &s.requires_ifs {
         a = a.requires_if(v.clone(), id.clone());
     }
-    for x in &s.overrides {
-        a = a.overrides_with(x.clone());
+    // one relation goes through `overrides_with`; a self-override alone, and every further relation,
+    // through `overrides_with_all` (both setters add to what is already stored)
+    if s.overrides.len() == 1 && s.overrides[0] == s.id {
+        a = a.overrides_with_all([s.overrides[0].clone()]);
+    } else if let Some((first, rest)) = s.overrides.split_first() {
+        a = a.overrides_with(first.clone());
+        if !rest.is_empty() {
+            a = a.overrides_with_all(rest.iter().cloned());
+        }
     }
     for (o, v) in &s.required_if_eq {
         a = a.required_if_eq(o.clone(), v.clone());
